@@ -141,6 +141,17 @@ func (g *RoutingGen) Run(nOps int) {
 					}
 				case 3:
 					return "x" + x
+				case 4:
+					// the same letters in the other case ("aB" -> "Ab"): identifiers are case-sensitive
+					return strings.Map(func(r rune) rune {
+						switch {
+						case r >= 'a' && r <= 'z':
+							return r - 32
+						case r >= 'A' && r <= 'Z':
+							return r + 32
+						}
+						return r
+					}, x)
 				}
 				return x
 			}
